@@ -43,8 +43,8 @@ func translateTx(t *testing.T) (map[string]*result, []*result) {
 func TestRefused(t *testing.T) {
 	m, _ := translateTx(t)
 	want := map[string]string{
-		"tx.Div": "operation /", "tx.StoreParam": "not only loaded from", "tx.Alloc": "MakeSlice",
-		"tx.Sub": "Slice", "tx.Dyn": "has no translation", "tx.Recursive": "recursion", "tx.CallsRefused": "callee tx.Div is unsupported",
+		"tx.Float": "has no translation", "tx.MapGet": "has no translation", "tx.boxed": "variadic", "tx.StoreParam": "not only loaded from", "tx.Alloc": "MakeSlice",
+		"tx.Sub": "Slice", "tx.Dyn": "has no translation", "tx.Recursive": "recursion", "tx.CallsRefused": "callee tx.MapGet is unsupported",
 		"tx.FillLoop": "not only loaded from",
 	}
 	for n, why := range want {
